@@ -189,7 +189,7 @@ PROPS = {
                     'stack rule of the statement; also: every token exactly once, in order, in the flattened tree.',
         assumptions=COMMON_ASSUME + ['delimiters < and >; names are single ASCII lower-case letters']),
     'C01': dict(
-        jobs=jobs_c01, tv=('front', 'pipe', 'list'), deadline={'quick': 420, 'thorough': 3000}, cli=True, covers_optional={t: C20_COVERS for t in ('quick', 'thorough')},
+        jobs=jobs_c01, tv=('front', 'pipe', 'list'), deadline={'quick': 1500, 'thorough': 6000}, cli=True, covers_optional={t: C20_COVERS for t in ('quick', 'thorough')},
         explanation='No feasible path reaches a panic terminator (overflow checks on), a panicking std model call (slice/str index, unwrap, '
                     'replace_range, explicit panic!) or the step budget: tokenize, element_parser::parse on every tag token and parser::parse '
                     'on every valid UTF-8 source of N bytes for the delimiter pool and for symbolic delimiters; tag bodies U(N).',
